@@ -244,7 +244,9 @@ func (db *Center) SuffrageProofByBlockHeight(height base.Height) (base.SuffrageP
 			}
 		}
 
-		lastheight = temps[len(temps)-1].Height() - 1
+		if h := temps[len(temps)-1].Height() - 1; h < lastheight {
+			lastheight = h
+		}
 	}
 
 	proof, found, err := db.perm.SuffrageProofByBlockHeight(lastheight)
